@@ -155,7 +155,7 @@ func vfStartRecorder(h2 bool) (*vfRecordingServer, error) {
 	rs := &vfRecordingServer{seen: map[string]*vfSeen{}}
 	handler := http.Handler(http.HandlerFunc(func(w http.ResponseWriter, r *http.Request) {
 		body, _ := io.ReadAll(r.Body)
-		s := &vfSeen{Method: r.Method, Path: r.URL.Path, Query: r.URL.Query(), Header: r.Header.Clone(), Body: body, Proto: r.ProtoMajor, Length: r.ContentLength, TE: r.TransferEncoding}
+		s := &vfSeen{Method: r.Method, Path: r.URL.EscapedPath(), Query: r.URL.Query(), Header: r.Header.Clone(), Body: body, Proto: r.ProtoMajor, Length: r.ContentLength, TE: r.TransferEncoding}
 		id := r.URL.Query().Get("verif-id")
 		rs.mu.Lock()
 		rs.seen[id] = s
@@ -460,7 +460,9 @@ func TestVerifC17RawRequest(t *testing.T) {
 			c := vfRawReq{H2: rapid.Bool().Draw(t, "h2"), Verb: rapid.SampledFrom([]string{"POST", "POST", "GET", "PUT"}).Draw(t, "verb")}
 			c.Path = rapid.SampledFrom([]string{"/connectrpc.conformance.v1.ConformanceService/Unary", "/some/other/path", "/",
 				// (paths a URL library would "clean up": they go out as given)
-				"/Svc/../Svc/Unary", "/./a/./b", "/a/b/..", "/a//b", "/a/b/"}).Draw(t, "path")
+				"/Svc/../Svc/Unary", "/./a/./b", "/a/b/..", "/a//b", "/a/b/",
+				// (percent-encoded reserved characters stay encoded)
+				"/svc%2Fv1/Method", "/svc/What%3FNow", "/a%20b/c%25"}).Draw(t, "path")
 			c.URIQuery = rapid.SampledFrom([]string{"", "", "a=1", "a=1&b=two&a=3", "encoding=proto&connect=v1"}).Draw(t, "uriQuery")
 			names := []string{"a", "b", "message", "encoding", "x y", "base64"}
 			for i, n := 0, rapid.IntRange(0, 3).Draw(t, "nraw"); i < n; i++ {
